@@ -226,6 +226,8 @@ impl Compactor {
 		guard: &mut HiddenTablesGuard,
 	) -> Result<()> {
 		let mut manifest = self.options.level_manifest.write()?;
+		#[cfg(surrealkv_verif)]
+		crate::verif::yp_held("compact:holding_manifest");
 		let _imm_guard = self.options.immutable_memtables.write();
 
 		// Check for table ID collision if adding a new table
